@@ -4,6 +4,7 @@ import (
 	"bytes"
 	"fmt"
 	"reflect"
+	"sort"
 	"testing"
 	"unsafe"
 
@@ -173,6 +174,19 @@ func c20DecodeOracle(in c20DecIn) probe.Outcome {
 	}
 	if p := overlapsBuffer(m.Payloads, x); p != "" {
 		return probe.Fail("decoded field %s shares memory with the input buffer", p)
+	}
+	// ... and its fields own their memory one by one: no two slices of the decoded message overlap, spare capacity included
+	// (two lists cut as windows out of one array: appending to the first - BuildTransform on a decoded proposal - overwrites
+	// the second)
+	{
+		var rs []memRange
+		reachableSlices(reflect.ValueOf(m.Payloads), "Payloads", map[uintptr]bool{}, &rs)
+		sort.Slice(rs, func(i, j int) bool { return rs[i].lo < rs[j].lo || rs[i].lo == rs[j].lo && rs[i].hi < rs[j].hi })
+		for i := 0; i+1 < len(rs); i++ {
+			if rs[i].hi > rs[i+1].lo && rs[i].path != rs[i+1].path {
+				return probe.Fail("decoded fields %s and %s lie in the same memory (capacity included): writing or appending to one changes the other", rs[i].path, rs[i+1].path)
+			}
+		}
 	}
 	if len(in.W)%4 == 2 || len(in.W) < 64 {
 		if err := probe.Try(func() error { probe.PrintAll(m); return nil }); err != nil { // the receiver logs what it decoded
